@@ -226,6 +226,11 @@ StepPreds(n, h, pre, preLog, post, postLog, postSn) ==
   ELSE IF h.kind = "pv" /\ Has(h, "resp") THEN
       (IF post.ct = pre.ct /\ post.vt = pre.vt /\ post.vc = pre.vc /\ post.role = pre.role /\ post.term = pre.term
        THEN {} ELSE {<<"C06", "PreVoteChangedState", <<n, h.id>>>>})
+      \* a pre-vote is only granted to a candidate that could win the real vote here and now: log at least as
+      \* up-to-date, a voter, term not behind, and no other leader known (otherwise a stale server can disrupt)
+      \cup (IF ~h.resp.granted \/ (UpToDate(h.req, LastEntry(pre)) /\ (pre.cl = NoCfg \/ IsVoter(tab, pre.cl, h.req.cand))
+                                     /\ h.req.term >= pre.term /\ (pre.leader = "" \/ pre.leader = h.req.cand))
+            THEN {} ELSE {<<"C14", "PreVoteGrantedWrongly", <<n, h.id, h.req, LastEntry(pre), pre.leader>>>>})
   ELSE {}
 
 Conformance(n, h, pre, preLog, post, postLog) ==
